@@ -129,6 +129,9 @@ EndVerdict(cfg, st, en, k) ==
      ELSE IF cfg.zone \in {"dag", "resolved"} THEN Fail("false-cycle-zone", k)
      ELSE "ok"
   ELSE IF en.out = "hang" THEN Fail("terminates", k)
+  \* a consumer still needs what a finished producer will never publish: not a valid composition, the driver
+  \* refuses to go on (without having updated the consumer: that would have been an "avail" rejection)
+  ELSE IF en.out = "err:FinamTimeError" /\ en.stage = "run" /\ FinishedDependency(cfg, st) THEN "ok"
   ELSE Fail("other-error", k)
 
 InitVerdict(cfg, st, ini) ==
